@@ -24,6 +24,8 @@ const STREAM_SMALL: u64 = 7;
 const STREAM_LARGE: u64 = 77;
 pub const XL_MAX_K: u32 = 1300;
 const STREAM_XL: u64 = 777;
+pub const XXL_MAX_K: u32 = 9000;
+const STREAM_XXL: u64 = 7777;
 
 pub fn flavour_name() -> &'static str {
     match (cfg!(debug_assertions), cfg!(feature = "rq-std")) {
@@ -511,8 +513,23 @@ pub fn run(ctx: &Ctx) -> i32 {
         }
     };
 
+    // very large stream (3000 <= K <= 9000, one block): release flavours only, a handful of scenarios
+    let n_xxl = ctx.runs(8, 400);
+    let hxx = {
+        let (b, seed) = (nostd_bin.clone(), ctx.seed);
+        std::thread::spawn(move || remote_digests(&b, seed, STREAM_XXL, 0, n_xxl, XXL_MAX_K, wshare))
+    };
+    let (acc_xxl, fail_xxl) = local_stream(ctx, STREAM_XXL, n_xxl, XXL_MAX_K, wshare);
+    let remote_xxl = match hxx.join().unwrap() {
+        Ok(m) => m,
+        Err(e) => {
+            eprintln!("HARNESS-ERROR: {e}");
+            return 2;
+        }
+    };
+
     // ---- knob divergence inside this binary
-    for (stream, fail) in [(STREAM_SMALL, fail_small), (STREAM_LARGE, fail_large), (STREAM_XL, fail_xl)] {
+    for (stream, fail) in [(STREAM_SMALL, fail_small), (STREAM_LARGE, fail_large), (STREAM_XL, fail_xl), (STREAM_XXL, fail_xxl)] {
         if let Some((run, d)) = fail {
             if violations.is_empty() {
                 violations.push(report_divergence(
@@ -531,7 +548,7 @@ pub fn run(ctx: &Ctx) -> i32 {
             }
         }
     }
-    comparisons += acc_small.runs + acc_large.runs + acc_xl.runs;
+    comparisons += acc_small.runs + acc_large.runs + acc_xl.runs + acc_xxl.runs;
 
     // ---- cross-build comparison, and knob divergence inside the other binaries
     let mut check_remote = |name: &str, bin: &str, m: &BTreeMap<u64, (String, String, String)>, local: &BTreeMap<u64, String>, stream: u64, max_k: u32, violations: &mut Vec<Violation>| {
@@ -557,6 +574,7 @@ pub fn run(ctx: &Ctx) -> i32 {
     }
     check_remote("release-nostd", &nostd_bin, &remote_large, &acc_large.digests, STREAM_LARGE, LARGE_MAX_K, &mut violations);
     check_remote("release-nostd", &nostd_bin, &remote_xl, &acc_xl.digests, STREAM_XL, XL_MAX_K, &mut violations);
+    check_remote("release-nostd", &nostd_bin, &remote_xxl, &acc_xxl.digests, STREAM_XXL, XXL_MAX_K, &mut violations);
 
     // ---- seeded hazards (ESIs where Rand's 32-bit additions wrap), all flavours
     let hz = hazards();
@@ -595,15 +613,18 @@ pub fn run(ctx: &Ctx) -> i32 {
     let mut faults = acc_small.faults.clone();
     faults.merge(&acc_large.faults);
     faults.merge(&acc_xl.faults);
+    faults.merge(&acc_xxl.faults);
     let mut kernels = acc_small.kernels.clone();
     kernels.merge(&acc_large.kernels);
     kernels.merge(&acc_xl.kernels);
+    kernels.merge(&acc_xxl.kernels);
     for k in ["kernel_auto", "kernel_portable", "kernel_ssse3", "kernel_avx2", "kernel_avx512"] {
         kernels.touch(k);
     }
     let mut kv = acc_small.knob_vectors.clone();
     kv.merge(acc_large.knob_vectors.clone());
     kv.merge(acc_xl.knob_vectors.clone());
+    kv.merge(acc_xxl.knob_vectors.clone());
     let wall = t0.elapsed().as_secs_f64();
     let mut samples = acc_small.samples.clone();
     samples.extend(acc_large.samples.clone());
@@ -612,14 +633,15 @@ pub fn run(ctx: &Ctx) -> i32 {
         ctx,
         &Evidence {
             level: "exploration",
-            evaluations: (acc_small.runs * 8) + (acc_large.runs * 4) + (acc_xl.runs * 4) + hazards_run.len() as u64 * 4,
+            evaluations: (acc_small.runs * 8) + (acc_large.runs * 4) + (acc_xl.runs * 4) + (acc_xxl.runs * 4) + hazards_run.len() as u64 * 4,
             distinct_nontrivial: kv.len() as u64,
-            rule: "one evaluation = one execution of a seeded transfer scenario in one environment (build flavour x knob vector); every scenario of the K<=120 stream runs in 4 builds x 2 knob vectors, every scenario of the K<=400 stream and of the extra-large stream (one block of 700..1300 symbols) in the 2 release builds x 2 knob vectors; transcripts (OTI bytes, every packet emitted, every receiver outcome after every delivery) must be identical. distinct_nontrivial = distinct knob vectors (kernel level, per-replica construction/plan source/encoder threshold, per-receiver decoder threshold) exercised in this binary; each is combined with 4 (resp. 2) build flavours".into(),
+            rule: "one evaluation = one execution of a seeded transfer scenario in one environment (build flavour x knob vector); every scenario of the K<=120 stream runs in 4 builds x 2 knob vectors, every scenario of the K<=400 stream and of the extra-large streams (one block of 700..1300 and of 3000..9000 symbols) in the 2 release builds x 2 knob vectors; transcripts (OTI bytes, every packet emitted, every receiver outcome after every delivery) must be identical. distinct_nontrivial = distinct knob vectors (kernel level, per-replica construction/plan source/encoder threshold, per-receiver decoder threshold) exercised in this binary; each is combined with 4 (resp. 2) build flavours".into(),
             samples,
             extra: json!({
                 "scenarios_small_stream": acc_small.runs,
                 "scenarios_large_stream": acc_large.runs,
                 "scenarios_xl_stream": acc_xl.runs,
+                "scenarios_xxl_stream_3000_to_9000_symbols": acc_xxl.runs,
                 "transcript_comparisons": comparisons,
                 "events_executed_in_this_binary": acc_small.events + acc_large.events + acc_xl.events,
                 "simulated_ticks": acc_small.ticks + acc_large.ticks + acc_xl.ticks,
@@ -640,11 +662,12 @@ pub fn run(ctx: &Ctx) -> i32 {
         },
     );
     println!(
-        "C07 {}: {} + {} + {} scenarios, {} transcript comparisons across 4 builds, {} knob vectors, {} hazards, {:.1}s",
+        "C07 {}: {} + {} + {} + {} scenarios, {} transcript comparisons across 4 builds, {} knob vectors, {} hazards, {:.1}s",
         ctx.tier(),
         acc_small.runs,
         acc_large.runs,
         acc_xl.runs,
+        acc_xxl.runs,
         comparisons,
         kv.len(),
         hazards_run.len(),
